@@ -128,7 +128,7 @@ def error_provenance(ctx):
         t = show(N.term(sp["body"]), 10 ** 5)
         i_reg = q.param_index(sp, lambda t: "PortableRegistry" in t)
         E = "elem(Iterator::enumerate(P%d.types))" % i_reg
-        exp = ("{for(Iterator::enumerate(P%d.types)){early{(%s.1.id!=(%s.0 as u32))=>return Err(error::TypegenError::RegistryTypeIdsInvalid{expected_ty_id:(%s.0 as u32),given_ty_id:%s.1.id,ty_def:F[{%s.1.ty}]})}'()'};Ok(())}"
+        exp = ("search(Iterator::enumerate(P%d.types),(%s.1.id!=(%s.0 as u32)),Err(error::TypegenError::RegistryTypeIdsInvalid{expected_ty_id:(%s.0 as u32),given_ty_id:%s.1.id,ty_def:F[{%s.1.ty}]}),Ok(()))"
                % (i_reg, E, E, E, E, E))
         expect_term(ctx, "C10.1", "error-guard/RegistryTypeIdsInvalid", sp["sp"], t, exp,
                     "every entry is visited in order; Err iff entry.id != position, with (given = entry.id, expected = position); Ok otherwise")
